@@ -10,6 +10,10 @@
 // entries held afterwards must be a subset of the intact dump's.
 // (c) damage: byte flips, arbitrary bytes and well-formed gzip wrappers around
 // hostile content; no panic, no hang, bounded heap growth.
+// (d) configuration space: capacity.go. (e) the dump on the real transport
+// (real net/http server, client and uploader models): transport.go. (f) entry
+// size classes up to the largest answer a 64 KiB wire message can hold, and
+// incompressible answers, dumped and reloaded in several orders: sizes.go.
 // (b) and (c) run in child processes with a per-case log, a watchdog and a heap
 // sampler so a crash / hang / memory blow-up is attributed to its input.
 package main
@@ -48,6 +52,8 @@ type replayCase struct {
 	ViaFile  bool         `json:"via_file,omitempty"`
 	Damage   *damageCase  `json:"damage,omitempty"`
 	Cap      *capCase     `json:"capacity_case,omitempty"`
+	HTTP     *httpCase    `json:"http_case,omitempty"`
+	HTTPObs  *httpObs     `json:"http_observed,omitempty"`
 	Result   *childResult `json:"result,omitempty"`
 	Stderr   string       `json:"stderr,omitempty"`
 }
@@ -76,7 +82,9 @@ func main() {
 	rep.SetRule("(a) scenario = cache contents {0, 1, hundreds..thousands of entries; 17 reply shapes incl. NXDOMAIN/NODATA/SERVFAIL/unknown types/9-60 KB answers; stored through Exec or injected with chosen age, message expiry and cache expiry (fresh, stale, expired, inconsistent)} x {lazy cache on/off} x {HTTP API, Close()+restart file}; one case = one question asked of the original and of the reloaded cache back-to-back; non-trivial = the original cache served it (fresh or stale) or it was an expired injected entry; " +
 		"(b) one case = one prefix length p < |D| of a real dump loaded into a fresh cache; thorough enumerates every p of every dump, quick takes the first/last 64, a stride, random ones and +-16 around every p at which the number of admitted entries changes; non-trivial = the prefix gets past the gzip header; " +
 		"(c) one case = one damaged input from 17 generator families (flips of real dumps in compressed and uncompressed form, splices, hand-made gzip headers/trailers, well-formed gzip+framing around hostile block lengths / random protobuf / hostile entries / garbage DNS messages / decompression bombs / 100-400-block streams of ~1 MiB blocks); non-trivial = the parser got past the gzip header; distinct = distinct inputs; " +
-		"(d) one case = one dump -> reload round trip of a cache whose arguments are a point of the configuration space {size unset, 0, negative, 1, 63..65, 127..129, 300, 512, 640, 1000, 1023, 1024, 1025, 1087, 1088, 1500, 2048, 5000} x {lazy_cache_ttl 0, 3600, 86400} x {dump_interval unset, 0, negative, 1, 600, 3600} spelled as YAML arguments (decoded like coremain does) or as a sequence quick-setup string, x an entry count at a boundary {dump block multiples, configured size -1/0/+1 and its round-up to a block, between configured size and real capacity, capacity -1/0/+1, above capacity} x fill {Exec, hand-written dump with block sizes 1..1000, both} x writer/loader path {HTTP API, Close()+start-up file, periodic dump loop} x {same, other configuration on reload}; quick draws one count per boundary group and configuration, thorough takes all; non-trivial = the source held at least one live entry and the reloaded cache was compared")
+		"(d) one case = one dump -> reload round trip of a cache whose arguments are a point of the configuration space {size unset, 0, negative, 1, 63..65, 127..129, 300, 512, 640, 1000, 1023, 1024, 1025, 1087, 1088, 1500, 2048, 5000} x {lazy_cache_ttl 0, 3600, 86400} x {dump_interval unset, 0, negative, 1, 600, 3600} spelled as YAML arguments (decoded like coremain does) or as a sequence quick-setup string, x an entry count at a boundary {dump block multiples, configured size -1/0/+1 and its round-up to a block, between configured size and real capacity, capacity -1/0/+1, above capacity} x fill {Exec, hand-written dump with block sizes 1..1000, both} x writer/loader path {HTTP API, Close()+start-up file, periodic dump loop} x {same, other configuration on reload}; quick draws one count per boundary group and configuration, thorough takes all; non-trivial = the source held at least one live entry and the reloaded cache was compared; " +
+		"(e) one case = one dump travelling over real HTTP: cache content {empty, one entry, 260 mixed entries with lazy cache, multi-block sized answers} x download client model {Go default transport (first and second request of a kept-alive connection), compression handling off, Accept-Encoding sent by the caller with and without removing the declared Content-Encoding, Accept-Encoding: identity, HTTP/1.0 close-delimited, hand-driven HTTP/1.1 keep-alive / pipelined / decoding} x upload model {Content-Length, chunked, Expect: 100-continue, reused keep-alive connection, hand-written chunks of arbitrary sizes}, API mounted like coremain mounts it and served by net/http on a loopback listener; quick pairs every client with one loader per content, thorough takes the product; two (a) scenarios also fetch and upload their dump this way; non-trivial = the saved file held entries and the reloaded cache was compared with it; " +
+		"(f) scenario = cache holding Exec-stored answers of size classes {1, 8, 60, 70, 200, 440, 600 KiB, largest a 64 KiB wire message can hold (~2 MiB); thorough also 500, 900 KiB}, measured without name compression - A/AAAA/NS/MX/TXT RRsets under owner names of 24..254 bytes, each a legal <= 65535-byte message in the compressed form the upstream sent - alone, in groups (6x440K, 24x70K, 150x8K, 3x600K+3x440K, incompressible TXT answers (40x60K, 120 of 2..64 KiB, mixes), ladder of all classes, seed-drawn mixes of 0.5-4 MiB) and among 0..300 ordinary entries, via API and via Close()+restart file; judged like (a), then dumped and reloaded `rounds` more times (each dump walks the cache in another order); non-trivial = distinct (scenario, round, block length vector)")
 	rep.Assume("independent reader: Go standard library compress/gzip + hand-written 8-byte framing and protobuf field walker (no mosdns code, no generated protobuf code)")
 	rep.Assume("cache keys are never computed by the harness: injected entries use keys read from the dump of a scratch cache that stored the same question")
 	rep.Assume("wall-clock reads are bracketed: an entry whose message/cache expiry (whole seconds in the dump) lies within +-1 s of the bracket of its two probes is not judged; TTLs are judged against the set of ages possible within the bracket")
@@ -85,6 +93,9 @@ func main() {
 
 	rep.Assume("(d) the number of entries a configuration can hold is never computed by the harness: the reference is the size gauge of a real cache with that configuration after the same questions were stored through Exec (same process, hence same shard hash seed); all entries of this phase live for at least 120 s")
 	rep.Assume("(d) when a dump is loaded into a cache that cannot hold all of it, the cache must end up holding as many of the dump's entries as it holds when they arrive through Exec; which of them is free")
+
+	rep.Assume("(e) a client model saves either the body as delivered or the body with the content codings removed that the response's Content-Encoding header declares (what net/http's transport, browsers and curl --compressed do); both kinds of client must end up with a loadable dump; byte identity of the saved file with the stream the handler wrote is counted, not demanded")
+	rep.Assume("(f) the sized answers are built with miekg/dns (Compress=true), verified to be <= 65535 bytes and handed to the cache after Unpack, i.e. as the forward plugin's upstreams hand them over; the harness never states what block length the format permits - an intact dump of the plugin itself must load")
 
 	var err error
 	tmpDir, err = os.MkdirTemp(os.Getenv("VERIF_TMP"), "c19-")
@@ -112,6 +123,25 @@ func main() {
 	if rep.Get("probe_A_stale") == 0 {
 		rep.Inconclusive("no stale (lazy) entry was observed in the original cache")
 	}
+
+	if rep.Violations() == 0 {
+		if rep.Get("size_entries_above_64KiB_dumped") == 0 || rep.Get("size_answers_above_64KiB_served_by_original_and_reloaded_cache") == 0 {
+			rep.Inconclusive("size phase: no answer above 64 KiB (uncompressed) was dumped, reloaded and served by both caches")
+		}
+		if rep.Get("size_entries_above_480KiB_dumped") == 0 || rep.Get("size_answers_above_480KiB_served_by_original_and_reloaded_cache") == 0 {
+			rep.Inconclusive("size phase: no answer above 480 KiB (uncompressed) was dumped, reloaded and served by both caches")
+		}
+		if rep.Get("size_rounds_reloaded_completely") == 0 {
+			rep.Inconclusive("size phase: no further dump -> reload round was completed")
+		}
+		if rep.Get("fidelity_dumps_downloaded_over_http") == 0 || rep.Get("fidelity_dumps_uploaded_over_http") == 0 {
+			rep.Inconclusive("no fidelity scenario moved its dump over real HTTP")
+		}
+	}
+
+	// ---- (e) the dump on the real transport ----
+	runHTTPPhase()
+	poolsan.Sweep()
 
 	// ---- (d) the configuration space ----
 	runCapacityPhase()
@@ -663,6 +693,13 @@ func runReplay() {
 			}
 			rep.Violation(key, "replayed damaged input killed the process: "+what, replayCase{Phase: "damage", Damage: c.Damage, Stderr: stderr})
 		})
+	case "http":
+		if c.HTTP == nil {
+			fmt.Println("replay: no http case")
+			cleanup()
+			os.Exit(3)
+		}
+		runHTTPContent([]httpCase{*c.HTTP})
 	case "capacity":
 		if c.Cap == nil {
 			fmt.Println("replay: no capacity case")
